@@ -26,20 +26,23 @@ argument tuple crosses exactly one edge of `locs[r]` when row `r` is present and
   every pair of boundary rows (or `None`) and returns one count per value of the domain: entry `k` is exactly
   `countSpec … (t, w, wo of D.vecs[k])`, and the last entry is `2^(n-1)` minus the others (the assignments whose
   tallies overflow).  Nothing is assumed about `labels`, `dist`, `N`, `K`, `c` (the hypotheses `labels[r] < c`,
-  `N ≥ nUnits - 1`, `0 < c` of the plan turned out not to be needed).
+  `N ≥ nUnits - 1`, `0 < c` of the plan turned out not to be needed).  The hypothesis `LocSpec` can be discharged
+  by running `locSpecOk` (`C09_locSpecOk`) or, in general, by `C09_compile` (this is `C09_exact`).
 * `C09_total` (C09b): the entries returned by `query` add up to `2^(nUnits - 1)`.
 * `C09_chain` (C09c): when every row has exactly one unit, `compile` returns the chain diagram over
   `range nUnits`, which is `Reach`able, and `LocSpec` holds.  `C09_mapfork`: hence for map/fork provenance
   `__init__` succeeds and the conclusions of `C09_main`/`C09_total` hold unconditionally.
-* `C09_compile_partial` (part of C09d): whatever `compile` returns for a conjunctive provenance (general case:
-  `stack`s of chains over the leaf units under header trees over the factor units, `concatenate`d) is a `Reach`able
-  diagram (hence well-formed and rectangular) with two candidates whose edge values are all zero and whose units
-  are a permutation of `range nUnits` (the connected components computed by `compile` partition the units), and
-  `__init__` then succeeds.  NOT proved in general (kept as the hypothesis `LocSpec` of `C09_main`, decidable via
-  `locSpecOk` and checked by the harness on every generated case): `LocSpec` itself for rows with several units
-  (needs: the greedy leaf set is independent, so a row has at most one leaf unit and it comes last in diagram order;
-  `getUpdateLocation` returns the edges of the last mentioned unit reached by the consistent paths; in a stack the
-  node reached determines the factor bits).
+* `C09_compile` (C09d): whatever `compile` returns for a conjunctive provenance (general case: `stack`s of chains
+  over the leaf units under header trees over the factor units, one per connected component, `concatenate`d) is a
+  `Reach`able diagram (hence well-formed and rectangular) with two candidates whose edge values are all zero, whose
+  units are a permutation of `range nUnits` (the components computed by `compile` partition the units), and
+  `LocSpec` holds (the greedy leaf set is independent, so a row has at most one leaf unit and it comes last in
+  diagram order; `get_update_location` returns the edges of the last mentioned unit at the nodes reached by the
+  consistent paths; in a stack the node reached spells the factor bits); `__init__` then succeeds.  Only proviso:
+  when `nConj = 1` the rows must really have one non-padding literal each (`OneUnit`), because the code then reads
+  only the first literal slot.
+* `C09_exact`: `C09_main` + `C09_total` with the hypothesis `LocSpec` discharged by `C09_compile` — the oracle
+  counts coalitions exactly for every conjunctive provenance with at least two units.
 * `C09_single_unit` (C09e): with a single unit `query` raises `IndexError` (finding F3b: `restrict` on a
   one-variable diagram) — this is why `C09_main` asks for `2 ≤ nUnits`.
 Examples use `decide` (`decide +kernel` where `build` has to be run); `compile` of the two-units-per-row example runs
@@ -66,7 +69,6 @@ def cmp3 : Compiled (AVal D3) :=
                         [⟨true, [0, 0], [0, 0]⟩, ⟨true, [1, 1], [0, 0]⟩]] },
     locs := [[(1, 1, 1)], [(2, 1, 1)]] }
 set_option maxRecDepth 8000 in
-set_option maxHeartbeats 1000000 in
 set_option linter.unusedSimpArgs false in
 /-- (`mergeSort` is defined by well-founded recursion, so `compile p3` is evaluated by `simp`, not by `decide`) -/
 theorem compile_p3 : compile p3 = .ok cmp3 := by
@@ -183,22 +185,58 @@ example : (build D2 2 p2 [0, 1, 1] [1, 2, 3]).bind (fun b => query 2 b 3 0 (some
     .ok [0, 0, 0, 0, 0, 0, 0, 0, 0, 0, 0, 0, 0, 0, 0, 0, 1, 0, 1] ∧ D2.vecs[16]? = some [1, 1, 0, 0, 1] ∧
     countSpec p2 [0, 1, 1] [1, 2, 3] 2 1 0 (some 0) (some 2) 1 [1, 0] [0, 1] = 1 := by decide +kernel
 
-/-- C09d, the part that is proved: `compile` of a provenance with binary candidates returns a `Reach`able diagram
-(well-formed, rectangular) with two candidates all of whose edge values are zero; and if its units are the units of
-`p` then `ShapleyOracle.__init__` succeeds on it.  The full statement
-`compile p = .ok cmp → Reach cmp.add ∧ cmp.add.units.Perm (range p.nUnits) ∧ LocSpec p cmp` for general conjunctive `p`
-is NOT proved (see the header); `C09_chain` proves it when every row has one unit. -/
-theorem C09_compile_partial {D : Dom} (p : Prov.P) (cmp : Compiled (AVal D)) (hconj : Conjunctive p)
-    (hcands : p.nCands = 2) (h : compile p = .ok cmp) :
+/-- C09d: what `compile` returns for a conjunctive provenance with binary candidates (chain when `nConj = 1`, otherwise
+`stack`s of copies of a chain over the leaf units under a header tree over the factor units, one per connected
+component of the co-occurrence graph, `concatenate`d): a `Reach`able diagram (well-formed, rectangular) with two
+candidates, all edge values zero, whose units are a permutation of `range nUnits`, and whose locations satisfy
+`LocSpec`; moreover `ShapleyOracle.__init__` then succeeds.  (When `nConj = 1` the code reads only the first literal
+slot of each row, so the rows must really consist of one non-padding literal: `OneUnit`.) -/
+theorem C09_compile {D : Dom} (p : Prov.P) (cmp : Compiled (AVal D)) (hconj : Conjunctive p)
+    (hcands : p.nCands = 2) (hshape : p.nConj = 1 → OneUnit p) (h : compile p = .ok cmp) :
     Reach cmp.add ∧ cmp.add.WF ∧ cmp.add.Rect ∧ cmp.add.C = 2 ∧ (∀ args, cmp.add.eval args = 0) ∧
-    cmp.add.units.Perm (List.range p.nUnits) ∧
+    cmp.add.units.Perm (List.range p.nUnits) ∧ LocSpec p cmp ∧
     (∀ (c : ℕ) (labels : List ℕ) (dist : List Rat), ∃ b, build D c p labels dist = .ok b ∧ b.base = cmp) := by
   obtain ⟨h1, h2, _, h4⟩ := compile_reach p cmp h hcands
   have hp := compile_units_perm p cmp h hconj hcands
-  exact ⟨h1, h1.inv.1, h1.inv.2, h2, h4, hp, fun c labels dist => build_ok c p labels dist cmp h hconj hp⟩
+  exact ⟨h1, h1.inv.1, h1.inv.2, h2, h4, hp, compile_locSpec p cmp h hconj hcands hshape,
+    fun c labels dist => build_ok c p labels dist cmp h hconj hp⟩
 
 example : compile p3 = .ok cmp3 ∧ cmp3.add.WF ∧ cmp3.add.C = 2 ∧ cmp3.add.call [1, 0, 1] = .ok 0 ∧
-    cmp3.add.units.Perm (List.range p3.nUnits) := ⟨compile_p3, by decide, by decide, by decide, by decide⟩
+    cmp3.add.units.Perm (List.range p3.nUnits) ∧ locSpecOk p3 cmp3 = true :=
+  ⟨compile_p3, by decide, by decide, by decide, by decide, by decide⟩
+example : LocSpec p3 cmp3 := (C09_compile p3 cmp3 (by decide) (by decide) (by decide) compile_p3).2.2.2.2.2.2.1
+
+/-- C09a without side conditions: for every conjunctive provenance with binary candidates and at least two units on
+which `ShapleyOracle.__init__` succeeds, `query` returns the by-definition counts (`C09_main` + `C09_compile`) -/
+theorem C09_exact (N K c : ℕ) (p : Prov.P) (labels : List ℕ) (dist : List Rat) (b : Built (Dom.tally N K c))
+    (hconj : Conjunctive p) (hcands : p.nCands = 2) (hn : 2 ≤ p.nUnits) (hshape : p.nConj = 1 → OneUnit p)
+    (hb : build (Dom.tally N K c) c p labels dist = .ok b)
+    (unit : ℕ) (hu : unit < p.nUnits) (bw bwo : Option ℕ)
+    (hbw : ∀ t, bw = some t → t < p.data.length) (hbwo : ∀ t, bwo = some t → t < p.data.length) :
+    ∃ counts : List Int, query c b p.data.length unit bw bwo = .ok counts ∧
+      counts.length = (Dom.tally N K c).vecs.length + 1 ∧
+      (∀ k (hk : k < (Dom.tally N K c).vecs.length), counts.getD k 0 =
+        ((countSpec p labels dist c K unit bw bwo ((Dom.tally N K c).vecs[k].headD 0)
+          (((Dom.tally N K c).vecs[k].drop 1).take c) (((Dom.tally N K c).vecs[k].drop (1 + c)).take c) : ℕ) : Int)) ∧
+      counts.getD (Dom.tally N K c).vecs.length 0 =
+        2 ^ (p.nUnits - 1) - (counts.take (Dom.tally N K c).vecs.length).sum ∧
+      counts.sum = 2 ^ (p.nUnits - 1) := by
+  have hloc : LocSpec p b.base :=
+    compile_locSpec p b.base (build_spec c p labels dist b hb).1 hconj hcands hshape
+  obtain ⟨_, _, _, counts, h1, h2, h3, h4⟩ :=
+    C09_main N K c p labels dist b hconj hcands hn hb hloc unit hu bw bwo hbw hbwo
+  exact ⟨counts, h1, h2, h3, h4,
+    C09_total N K c p labels dist b hconj hcands hn hb hloc unit hu bw bwo hbw hbwo counts h1⟩
+
+/-- the join `p3` (labels 0, 1; distances 1, 2): `C09_exact` applies to whatever `__init__` returns … -/
+example (b : Built D3) (hb : build D3 2 p3 [0, 1] [1, 2] = .ok b) :
+    ∃ counts, query 2 b 2 1 (some 0) none = .ok counts ∧ counts.sum = 4 := by
+  obtain ⟨counts, h1, _, _, _, h5⟩ := C09_exact 2 1 2 p3 [0, 1] [1, 2] b (by decide) (by decide) (by decide) (by decide) hb
+    1 (by decide) (some 0) none (by decide) (by decide)
+  exact ⟨counts, h1, h5⟩
+/-- … and `__init__` does succeed there -/
+example : ∃ b, build D3 2 p3 [0, 1] [1, 2] = .ok b ∧ b.base = cmp3 :=
+  (C09_compile p3 cmp3 (by decide) (by decide) (by decide) compile_p3).2.2.2.2.2.2.2 2 [0, 1] [1, 2]
 
 /-- C09e: with a single unit `query` raises `IndexError` (finding F3b), whatever the boundaries -/
 theorem C09_single_unit (N K c : ℕ) (p : Prov.P) (labels : List ℕ) (dist : List Rat) (b : Built (Dom.tally N K c))
